@@ -99,10 +99,57 @@ def fam_agents(rng, n):
     return fam
 
 
+def fam_segments(rng, n):
+    from core import run_model
+    fam = Family("choice_segments",
+                 "random masks over n_agents x n_combinations (2-7 agents, 1-6 combinations of restricted "
+                 "choices, every agent keeps a passing row, unequal per-agent counts incl. totals divisible by "
+                 "the number of agents): lcm.simulate.create_choice_segments vs the model's segment ids "
+                 "(= the agent of every kept row); non-trivial = unequal per-agent counts")
+    cases = []
+    for _ in range(n):
+        na, nc = rng.randint(2, 7), rng.randint(1, 6)
+        rows = []
+        for a in range(na):
+            r = [rng.random() < 0.5 for _ in range(nc)]
+            if not any(r):
+                r[rng.randrange(nc)] = True
+            rows.append(r)
+        if rng.random() < 0.4 and na >= 2 and nc >= 3:      # unequal counts whose total is divisible by na
+            rows = [[True] + [False] * (nc - 1) for _ in range(na)]
+            rows[-1] = [True] * min(nc, 3) + [False] * (nc - min(nc, 3))
+            extra = (na - (sum(sum(r) for r in rows) % na)) % na
+            for a in range(na - 1):
+                if extra == 0:
+                    break
+                if nc >= 2:
+                    rows[a][1] = True
+                    extra -= 1
+        data = [x for r in rows for x in r]
+        cases.append({"fn": "choice_segments", "mask": {"shape": [na * nc], "data": data}, "n_agents": na, "_rows": rows})
+    ires = run_impl([{k: v for k, v in c.items() if not k.startswith("_")} for c in cases])
+    mres = run_model([{"fn": "indexers_and_segments", "mask": {"shape": [c["n_agents"], len(c["_rows"][0])], "data": c["mask"]["data"]},
+                       "n_sparse_states": 1} for c in cases])
+    for c, m, i in zip(cases, mres, ires):
+        counts = [sum(r) for r in c["_rows"]]
+        fam.count({"mask": c["mask"], "n": c["n_agents"]}, len(set(counts)) > 1)
+        exp = [a for a, r in enumerate(c["_rows"]) for x in r if x]
+        if isinstance(i, dict) and "error" in i:
+            fam.violations.append({"case": {k: v for k, v in c.items() if not k.startswith("_")}, "impl": i, "what": "create_choice_segments raised"})
+        elif i["segment_ids"] != exp or i["num_segments"] != c["n_agents"]:
+            fam.violations.append({"case": {k: v for k, v in c.items() if not k.startswith("_")}, "impl": i, "expected": exp,
+                                   "what": "segment ids do not map every kept row to its own agent"})
+        elif m.get("segment_ids") != i["segment_ids"]:
+            fam.disagreements.append({"case": {k: v for k, v in c.items() if not k.startswith("_")}, "model": m, "impl": i})
+        else:
+            fam.exact += 1
+    return fam
+
+
 def run(tier, seed):
     rng = random.Random(seed * 7919 + 8)
     k = 1 if tier == "quick" else 15
-    return [fam_agents(rng, 10 * k)]
+    return [fam_agents(rng, 10 * k), fam_segments(rng, 120 * k)]
 
 
 def matches_signature(entry, item):
